@@ -47,7 +47,8 @@ class MPSBackend(EmulatorBackend):
             f"Saving simulation state every {impl.config.autosave_dt} seconds"
         )
 
-        return MPSBackend._run(impl)
+        result = MPSBackend._run(impl)
+        return impl.permute_results(result, impl.config.optimize_qubit_ordering)
 
     def run(self) -> Results:
         """
